@@ -20,6 +20,14 @@ type C14Case struct {
 	Route  int    `json:"route"`  // construction route of the list (see listByRoute)
 	// Derived: list/object elements are user-defined derived types (embedding List/Object, registered with Init)
 	Derived bool `json:"derived,omitempty"`
+	// Muts: later mutations; all views are checked again after each
+	Muts []ViewMut `json:"muts,omitempty"`
+}
+
+type ViewMut struct {
+	Op   string `json:"op"`
+	A    int    `json:"a,omitempty"`
+	Kind int    `json:"kind,omitempty"`
 }
 
 func GenC14(t *rapid.T) *C14Case {
@@ -33,6 +41,12 @@ func GenC14(t *rapid.T) *C14Case {
 	c := &C14Case{Object: oneIn(t, 3, "obj"), Pred: drawInt(t, 0, 3, "pred"), Route: drawInt(t, 0, numListRoutes-1, "route"), Derived: oneIn(t, 4, "derived")}
 	for i := 0; i < n; i++ {
 		c.Kinds = append(c.Kinds, alphabet[drawIdx(t, nk, "k")])
+	}
+	if oneIn(t, 3, "mutate") {
+		ops := []string{"add", "insert", "replace", "delete", "pop", "reverse", "set", "unset"}
+		for i, k := 0, drawInt(t, 1, 3, "nmuts"); i < k; i++ {
+			c.Muts = append(c.Muts, ViewMut{Op: ops[drawIdx(t, len(ops), "mop")], A: genRaw(t), Kind: int(alphabet[drawIdx(t, nk, "mk")])})
+		}
 	}
 	return c
 }
@@ -186,10 +200,67 @@ func checkListViews(c *C14Case, st *Stats) error {
 	}
 	l := listByRoute(shape, vals, c.Route%numListRoutes, c.Pred)
 	st.Count(fmt.Sprintf("route.%d", c.Route%numListRoutes))
+	if err := verifyListViews(l, vals, c.Kinds, c.Pred, st); err != nil {
+		return err
+	}
+	// the list changes; every view must describe it as it is then (expectations are re-derived from
+	// Get/TypeOf, which do not depend on the views)
+	for mi, m := range c.Muts {
+		cnt := l.Count()
+		fresh := deriveIf(c.Derived, elemValueZ(Kind(m.Kind%7), 1000+mi, false))
+		switch m.Op {
+		case "add":
+			l.Add(fresh)
+		case "insert":
+			at := 0
+			if cnt > 0 {
+				at = m.A % cnt
+			}
+			l.Insert(at, fresh)
+		case "replace":
+			if cnt == 0 {
+				continue
+			}
+			l.Replace(m.A%cnt, fresh)
+		case "delete":
+			if cnt == 0 {
+				continue
+			}
+			l.Delete(m.A % cnt)
+		case "pop":
+			if cnt == 0 {
+				continue
+			}
+			l.Pop()
+		case "reverse":
+			l.Reverse()
+		default:
+			continue
+		}
+		st.Count("reviewed_after." + m.Op)
+		nowVals := make([]any, l.Count())
+		nowKinds := make([]Kind, l.Count())
+		for i := range nowVals {
+			nowVals[i] = l.Get(i)
+			k, ok := kindOfType(l.TypeOf(i))
+			if !ok {
+				return errf("after %s: TypeOf(%d) undefined", m.Op, i)
+			}
+			nowKinds[i] = k
+		}
+		if err := verifyListViews(l, nowVals, nowKinds, c.Pred, NewStats()); err != nil {
+			return errf("after a later %s: %v", m.Op, err)
+		}
+	}
+	return nil
+}
+
+func verifyListViews(l at.List, vals []any, kinds []Kind, predSel int, st *Stats) error {
+	n := len(kinds)
 	before, _ := TakeIdentSnap(l)
 	// expected subsequences
 	sub := map[Kind][]any{}
-	for i, k := range c.Kinds {
+	for i, k := range kinds {
 		sub[k] = append(sub[k], vals[i])
 	}
 	tags := func(xs []any) []string {
@@ -201,7 +272,7 @@ func checkListViews(c *C14Case, st *Stats) error {
 	}
 	all := tags(vals)
 	fail := func(what string, got, want []string) error {
-		return errf("%s on a list of kinds %v: got %v, expected %v", what, c.Kinds, got, want)
+		return errf("%s on a list of kinds %v: got %v, expected %v", what, kinds, got, want)
 	}
 	same := func(what string, got, want []string) error {
 		if !eqStrings(got, want) {
@@ -222,7 +293,7 @@ func checkListViews(c *C14Case, st *Stats) error {
 	}
 	var log []any
 	reset := func() { log = nil }
-	pred := predFor(c.Pred)
+	pred := predFor(predSel)
 	expectFilter := func(xs []any) []any {
 		var out []any
 		for call, x := range xs {
@@ -319,7 +390,7 @@ func checkListViews(c *C14Case, st *Stats) error {
 			}
 		}
 		if got := op.allX(); got != (len(want) == n) {
-			return errf("All<%s> = %v on kinds %v", name, got, c.Kinds)
+			return errf("All<%s> = %v on kinds %v", name, got, kinds)
 		}
 		if len(want) >= 2 {
 			st.Count("probed_with_repetition." + name)
@@ -327,7 +398,7 @@ func checkListViews(c *C14Case, st *Stats) error {
 	}
 	numeric := len(sub[KInt])+len(sub[KFloat]) == n
 	if l.AllNumeric() != numeric {
-		return errf("AllNumeric = %v on kinds %v", l.AllNumeric(), c.Kinds)
+		return errf("AllNumeric = %v on kinds %v", l.AllNumeric(), kinds)
 	}
 	// reductions with non-commutative folds
 	wantInts, gotInts := 7, l.ReduceInts(7, func(acc, x int) int { return acc*31 + x })
@@ -335,7 +406,7 @@ func checkListViews(c *C14Case, st *Stats) error {
 		wantInts = wantInts*31 + x.(int)
 	}
 	if gotInts != wantInts {
-		return errf("ReduceInts with acc*31+x = %d, expected %d on kinds %v", gotInts, wantInts, c.Kinds)
+		return errf("ReduceInts with acc*31+x = %d, expected %d on kinds %v", gotInts, wantInts, kinds)
 	}
 	wantStr, gotStr := ">", l.ReduceStrings(">", func(acc, x string) string { return acc + "|" + x })
 	for _, x := range sub[KString] {
@@ -418,7 +489,6 @@ func tagsAsStrings(l at.List) []string {
 }
 
 func checkObjectViews(c *C14Case, st *Stats) error {
-	n := len(c.Kinds)
 	o := at.NewObject()
 	if c.Route%3 == 1 {
 		// typed-map origin: the int fields come from a map[string]int, the others are Set afterwards
@@ -447,6 +517,53 @@ func checkObjectViews(c *C14Case, st *Stats) error {
 		}
 		byKind[k][key] = vals[key]
 	}
+	if err := verifyObjectViews(o, vals, byKind, c.Kinds, st); err != nil {
+		return err
+	}
+	for mi, m := range c.Muts {
+		keys := sortedKeys(o)
+		fresh := deriveIf(c.Derived, elemValueZ(Kind(m.Kind%7), 1000+mi, false))
+		switch m.Op {
+		case "set", "add", "insert":
+			o.Set(fmt.Sprintf("New%d", mi), fresh)
+		case "replace":
+			if len(keys) == 0 {
+				continue
+			}
+			o.Set(keys[m.A%len(keys)], fresh)
+		case "unset", "delete", "pop":
+			if len(keys) == 0 {
+				continue
+			}
+			o.Unset(keys[m.A%len(keys)])
+		default:
+			continue
+		}
+		st.Count("reviewed_after.object." + m.Op)
+		nowVals := map[string]any{}
+		nowByKind := map[Kind]map[string]any{}
+		var nowKinds []Kind
+		for _, k := range sortedKeys(o) {
+			nowVals[k] = o.Get(k)
+			kd, ok := kindOfType(o.TypeOf(k))
+			if !ok {
+				return errf("after %s: TypeOf(%q) undefined", m.Op, k)
+			}
+			nowKinds = append(nowKinds, kd)
+			if nowByKind[kd] == nil {
+				nowByKind[kd] = map[string]any{}
+			}
+			nowByKind[kd][k] = nowVals[k]
+		}
+		if err := verifyObjectViews(o, nowVals, nowByKind, nowKinds, NewStats()); err != nil {
+			return errf("after a later %s: %v", m.Op, err)
+		}
+	}
+	return nil
+}
+
+func verifyObjectViews(o at.Object, vals map[string]any, byKind map[Kind]map[string]any, kinds []Kind, st *Stats) error {
+	n := len(vals)
 	before, _ := TakeIdentSnap(o)
 	multiset := func(xs []any) []string {
 		out := make([]string, len(xs))
@@ -519,7 +636,7 @@ func checkObjectViews(c *C14Case, st *Stats) error {
 		op.forEach()
 		want := byKind[op.k]
 		if !eqStrings(multiset(log), wantMulti(want)) {
-			return errf("object ForEach<%v> visited %v, expected %v (kinds %v)", op.k, multiset(log), wantMulti(want), c.Kinds)
+			return errf("object ForEach<%v> visited %v, expected %v (kinds %v)", op.k, multiset(log), wantMulti(want), kinds)
 		}
 		if err := checkMapped(fmt.Sprintf("object Map<%v>", op.k), op.mapX(), want); err != nil {
 			return err
